@@ -87,6 +87,13 @@ def one_fit(case, ctx, C, rc, exact, nodes, round_):
         if ref.rank(G) < len(nodes_q):
             ctx.count("skipped_not_unisolvent")
             return
+        if not exact:
+            import numpy as np
+
+            Gf = np.array([[float(v) for v in row] for row in G], dtype="float64")
+            if not float(np.linalg.cond(Gf @ Gf.T)) < 1e8:
+                judged = False  # unisolvent in exact arithmetic but numerically ill posed: float verdict withheld
+                ctx.count("float_ill_conditioned_unjudged")
     o = call(Curve, Vn)
     if not ctx.check(o.ok, "construct:target", f"target knot vector rejected {o.brief()}"):
         return
